@@ -9,11 +9,11 @@ WT=/tmp/confirm_$P$X
 OUT=/verif/seeded/$P$X
 LOG=/tmp/confirm_$P$X.log
 exec >"$LOG" 2>&1
-git -C /repo worktree remove --force $WT 2>/dev/null
-git -C /repo worktree add -q --detach $WT HEAD || exit 2
+flock /tmp/gitwt.lock git -C /repo worktree remove --force $WT 2>/dev/null
+flock /tmp/gitwt.lock git -C /repo worktree add -q --detach $WT HEAD || exit 2
 cd $WT
 res() { echo "RESULT $P$X: $*"; }
-cleanup() { cd /; git -C /repo worktree remove --force $WT; }
+cleanup() { cd /; flock /tmp/gitwt.lock git -C /repo worktree remove --force $WT; }
 trap cleanup EXIT
 meson setup _build >/dev/null 2>&1 && ninja -C _build >/dev/null 2>&1 || { res "baseline build failed"; exit 1; }
 build_demo() { gcc -O1 -g $SRC/demo.c -I$WT/pixman -I$WT/_build/pixman -L$WT/_build/pixman -lpixman-1 -lm -lpthread -ldl -o $WT/demo_bin 2>&1; }
